@@ -2963,7 +2963,10 @@ impl Compiler {
             );
             Some(self.push_offset_placeholder())
         } else {
-            None
+            // The function is unused, its body still gets compiled to check for errors,
+            // but it must not be executed as part of the enclosing frame: jump over it.
+            self.push_op(Jump, &[]);
+            Some(self.push_offset_placeholder())
         };
 
         let local_count = match u8::try_from(function.local_count) {
